@@ -188,9 +188,22 @@ def check(an, rep, tier):
     _two_sided(prog, rep, 'func_full.func_get_full')
 
     def asym(mod, fn, node, gs):
-        return any(pol and 'abs' in paths.src(mod, t) and 'b[k]' in
-                   paths.src(mod, t) and 'a[k]' in paths.src(mod, t)
-                   for t, pol in gs) and \
+        # a holding comparison that involves abs(...) of both box bounds
+        # (parameters 2 and 3) at one and the same position
+        apar, bpar = fn.params[1], fn.params[2]
+
+        def both_bounds(t):
+            subs = [x for x in ast.walk(t) if isinstance(x, ast.Subscript)
+                    and isinstance(x.value, ast.Name)]
+            ia = {ast.dump(x.slice) for x in subs if x.value.id == apar}
+            ib = {ast.dump(x.slice) for x in subs if x.value.id == bpar}
+            has_abs = any(isinstance(c, ast.Call) and
+                          (getattr(c.func, 'id', None) == 'abs' or
+                           getattr(c.func, 'attr', None) in ('abs', 'fabs'))
+                          for c in ast.walk(t))
+            return bool(ia & ib) and has_abs
+        return any(pol and isinstance(t, ast.Compare) and both_bounds(t)
+                   for t, pol in paths.guard_atoms(gs)) and \
             node.lineno < min([n.lineno for n in ast.walk(fn.node)
                                if isinstance(n, ast.Call) and
                                isinstance(n.func, ast.Attribute) and
